@@ -125,7 +125,40 @@ func fieldHistory(kind string, seq []int, observers bool) string {
 	var edits []func()
 	use := func() {}
 	early := false
+	// a bystander: the text of another entity that was BUILT WITH a type object this one handed out earlier; no edit below touches it, so it must not change
+	var bystander func() string
 	switch kind {
+	case "func-type-shared":
+		f := m.NewFunc("handler", types.Void)
+		g := m.NewFunc("bystander", types.Void, ir.NewParam("cb", f.Type()))
+		objs = append(objs, f)
+		edits = []func(){func() { f.AddrSpace = 1 }, func() { f.AddrSpace = 0 }, func() { f.AddrSpace = 2 }}
+		use = func() { ub.NewICmp(1, f, f) }
+		bystander = func() string { return g.LLString() }
+	case "global-type-shared":
+		gl := m.NewGlobalDef("g", constant.NewInt(types.I32, 0))
+		g := m.NewFunc("bystander", types.Void, ir.NewParam("p", gl.Type()))
+		objs = append(objs, gl)
+		edits = []func(){func() { gl.AddrSpace = 3 }, func() { gl.AddrSpace = 0 }, func() { gl.AddrSpace = 5 }}
+		use = func() { ub.NewLoad(types.I32, gl) }
+		bystander = func() string { return g.LLString() }
+	case "alloca-type-shared":
+		a := ub.NewAlloca(types.I32)
+		a.SetName("slot")
+		g := m.NewFunc("bystander", types.Void, ir.NewParam("p", a.Type()))
+		objs = append(objs, a)
+		edits = []func(){func() { a.AddrSpace = 5 }, func() { a.AddrSpace = 0 }, func() { a.AddrSpace = 3 }}
+		use = func() { ub.NewStore(constant.NewInt(types.I32, 1), a) }
+		bystander = func() string { return g.LLString() }
+	case "alias-type-shared":
+		g0 := m.NewGlobalDef("g", constant.NewInt(types.I32, 0))
+		h0 := m.NewGlobalDef("h", constant.NewInt(types.I64, 0))
+		al := m.NewAlias("al", g0)
+		g := m.NewFunc("bystander", types.Void, ir.NewParam("p", al.Type()))
+		objs = append(objs, al)
+		edits = []func(){func() { al.Aliasee = h0 }, func() { al.Aliasee = g0 }, func() { al.Aliasee = h0 }}
+		use = func() { ub.NewICmp(1, al, al) }
+		bystander = func() string { return g.LLString() }
 	case "func-addrspace":
 		f := m.NewFunc("handler", types.Void)
 		objs = append(objs, f)
@@ -257,6 +290,10 @@ func fieldHistory(kind string, seq []int, observers bool) string {
 		if !early {
 			ub.NewRet(nil)
 		}
+		before := ""
+		if bystander != nil {
+			before = bystander()
+		}
 		observe()
 		for k, e := range seq {
 			if e < 0 || e >= len(edits) {
@@ -268,7 +305,13 @@ func fieldHistory(kind string, seq []int, observers bool) string {
 			}
 		}
 		use()
-		return hexOut([]byte(m.String()))
+		text := m.String()
+		if bystander != nil {
+			if after := bystander(); after != before {
+				return "BYSTANDER-CHANGED " + hexOut([]byte(before)) + " -> " + hexOut([]byte(after))
+			}
+		}
+		return hexOut([]byte(text))
 	}, nil)
 }
 
@@ -286,6 +329,9 @@ func init() {
 		without := fieldHistory(a[0], seq, false)
 		if with == "unknown-kind" {
 			return "FAIL unknown-kind"
+		}
+		if strings.HasPrefix(with, "BYSTANDER") || strings.HasPrefix(without, "BYSTANDER") {
+			return "FAIL an entity that no step touched changed its text (a type object it shares was edited in place): " + with + " / " + without
 		}
 		if with != without {
 			return "FAIL observers-changed-the-text " + with + " vs " + without
